@@ -575,6 +575,7 @@ func run(c *Ctx) {
 
 	directEquivalences(c, rng.Fork())
 	explicitValues(c)
+	quantizerRange(c)
 	c.Sample(map[string]any{"rows": len(rows), "example_case": "eff 0 0 0 16 16 1 " + optsLine(&bases[2])})
 }
 
@@ -835,6 +836,116 @@ func explicitValues(c *Ctx) {
 		c.Nontrivial("explicit:" + p.field + optsLine(&oa))
 		if bytes.Equal(ra.out, rb.out) {
 			c.Violate("explicit-value-ignored:"+p.field, "two documented-distinct explicit values give byte-identical files ("+p.why+")", rep)
+		}
+	}
+}
+
+// quantizerRange: QMin / QMax are documented as the minimum / maximum quantizer value (matching
+// libwebp's qmin / qmax, which clamp the quality of every encode).  Hence a Quality outside
+// [QMin, QMax] must behave exactly as the clamped value, with or without TargetSize / TargetPSNR,
+// and for QMin == QMax the output must not depend on Quality at all.  (Dithering is left out:
+// its amplitude is documented as a function of Quality itself.)
+//   qrange-ignored:<target>  the file is the unclamped encoding (closer in size to the plain
+//                            encoding at Quality than to the one at the clamped quality)
+//   qrange-inexact:<target>  near the clamped encoding but not byte-identical to it
+func quantizerRange(c *Ctx) {
+	im := observableImage()
+	fresh := func(o webp.EncoderOptions) ([]byte, bool) {
+		runtime.GC()
+		runtime.GC()
+		r := encode(im, &o)
+		c.D.Evaluations++
+		if r.panicked != "" || r.err != nil {
+			c.Violate("rejected-valid:QMin/QMax", fmt.Sprintf("Encode failed on a documented-valid quantizer range: %v %s", r.err, r.panicked), map[string]any{"options": optsLine(&o)})
+			return nil, false
+		}
+		return r.out, true
+	}
+	plain := map[int]int{} // Quality -> size of the plain encoding (default range, no target)
+	plainSize := func(q int) int {
+		if n, ok := plain[q]; ok {
+			return n
+		}
+		o := *webp.DefaultOptions()
+		o.Quality = float32(q)
+		b, _ := fresh(o)
+		plain[q] = len(b)
+		return len(b)
+	}
+	abs := func(x int) int {
+		if x < 0 {
+			return -x
+		}
+		return x
+	}
+	ranges := [][2]int{{30, 30}, {0, 0}, {100, 100}, {20, 60}}
+	quals := []int{0, 10, 45, 90, 100}
+	if !c.Thorough() {
+		ranges = [][2]int{{30, 30}, {100, 100}, {20, 60}}
+		quals = []int{0, 45, 90, 100}
+	}
+	for _, tgt := range []string{"none", "size", "psnr"} {
+		for _, r := range ranges {
+			mk := func(q int) webp.EncoderOptions {
+				o := *webp.DefaultOptions()
+				o.Quality = float32(q)
+				o.QMin, o.QMax = r[0], r[1]
+				switch tgt {
+				case "size":
+					o.TargetSize = 600
+				case "psnr":
+					o.TargetPSNR = 35
+				}
+				return o
+			}
+			refs := map[int][]byte{}
+			for _, q := range quals {
+				cq := q
+				if cq < r[0] {
+					cq = r[0]
+				}
+				if cq > r[1] {
+					cq = r[1]
+				}
+				if cq == q {
+					continue
+				}
+				ref, ok := refs[cq]
+				if !ok {
+					var ok2 bool
+					ref, ok2 = fresh(mk(cq))
+					if !ok2 {
+						continue
+					}
+					refs[cq] = ref
+				}
+				o := mk(q)
+				out, ok3 := fresh(o)
+				if !ok3 {
+					continue
+				}
+				c.Count("quantizer_range_pairs")
+				c.Nontrivial(fmt.Sprintf("qrange|%s|%d-%d|%d", tgt, r[0], r[1], q))
+				if bytes.Equal(out, ref) {
+					continue
+				}
+				again, _ := fresh(o)
+				refAgain, _ := fresh(mk(cq))
+				if !bytes.Equal(again, out) || !bytes.Equal(refAgain, ref) {
+					c.Count("unstable_encoder_output_skipped")
+					continue
+				}
+				pu, pc := plainSize(q), plainSize(cq)
+				key := "qrange-inexact:" + tgt
+				desc := "Quality outside [QMin,QMax] is not byte-identical to the clamped Quality"
+				if pu != pc && abs(len(out)-pu) < abs(len(out)-pc) {
+					key = "qrange-ignored:" + tgt
+					desc = "Quality outside [QMin,QMax] is coded unclamped (QMin/QMax have no effect)"
+				}
+				c.Violate(key, fmt.Sprintf("%s: Quality %d with QMin %d QMax %d (target %s) gives %d bytes, Quality %d gives %d bytes; plain encodings: %d bytes at %d, %d bytes at %d",
+					desc, q, r[0], r[1], tgt, len(out), cq, len(ref), pu, q, pc, cq),
+					map[string]any{"image": "observableImage() 48x40", "options": optsLine(&o), "clamped_quality": cq, "target": tgt})
+			}
 		}
 	}
 }
